@@ -134,6 +134,10 @@ Proof.
     rewrite E. destruct x as [|p]; [reflexivity|]. do 6 (destruct p as [p|p|]; try reflexivity). congruence.
 Qed.
 
+Lemma hgc_int c f v ty : find_be (c_fields c) f = Some ty -> is_int_type ty = true ->
+  has_group_count_c c f v = has_group_count v.
+Proof. intros H1 H2. unfold has_group_count_c. rewrite H1, H2. reflexivity. Qed.
+
 Lemma count_agree v : canon_int v = true -> has_group_count (cstr v) = count_pos v.
 Proof.
   intros H. destruct (canon_int_value v H) as (n & _ & _ & Ha & Hi & Hall & _).
@@ -326,7 +330,7 @@ Notation DGG := (decode_group c real_caps from fsize).
 Definition stmtEL (mf : nat) : Prop := forall sg grp pos off ts tail seen sf,
   wf_table c true sg = true -> elem_rel sg grp seen pos -> toks_ok c ts = true ->
   at_toks from fsize off ts tail -> (3 * length ts + 1 <= sf)%nat ->
-  DGE mf grp pos off <> Fuel ->
+  (3 * length ts + 1 <= mf)%nat ->
   match sp_fields sf sg true seen ts with
   | PViol => exists e, DGE mf grp pos off = Exc e
   | PRest seen' rest =>
@@ -339,7 +343,7 @@ Definition stmtEL (mf : nat) : Prop := forall sg grp pos off ts tail seen sf,
 Definition stmtGL (mf : nat) : Prop := forall gm els off ts tail sf,
   wf_table c true gm = true -> toks_ok c ts = true ->
   at_toks from fsize off ts tail -> (3 * length ts + 2 <= sf)%nat ->
-  DGL mf gm els off <> Fuel ->
+  (3 * length ts + 2 <= mf)%nat ->
   match sp_elems sf gm ts with
   | None => exists e, DGL mf gm els off = Exc e
   | Some rest =>
@@ -351,7 +355,7 @@ Definition stmtGL (mf : nat) : Prop := forall gm els off ts tail sf,
 Definition stmtDL (mf : nat) : Prop := forall m f sg off ts tail sf,
   find_sub (mb_subs m) f = Some sg -> wf_table c true sg = true -> toks_ok c ts = true ->
   at_toks from fsize off ts tail -> (3 * length ts + 2 <= sf)%nat ->
-  DGG mf m f off <> Fuel ->
+  (3 * length ts + 3 <= mf)%nat ->
   match sp_elems sf sg ts with
   | None => exists e, DGG mf m f off = Exc e
   | Some rest =>
@@ -365,7 +369,7 @@ Lemma lenN_ser_nil : lenN (ser []) = 0. Proof. reflexivity. Qed.
 
 Lemma stepEL mf : stmtEL mf -> stmtDL mf -> stmtEL (S mf).
 Proof.
-  intros IHE IHD sg grp pos off ts tail seen sf Hwf Hrel Hok Hat Hsf Hnf.
+  intros IHE IHD sg grp pos off ts tail seen sf Hwf Hrel Hok Hat Hsf Hmf.
   destruct sf as [|sf]; [lia|].
   rewrite dg_elem_S in *. cbv zeta in *.
   destruct ts as [|t r].
@@ -419,7 +423,6 @@ Proof.
   assert (Hcont : forall g' cons1 r',
     r = cons1 ++ r' -> elem_rel sg g' (k_tag t :: seen) (pos + 1) ->
     Permutation (mflat g') (mflat grp ++ tok_pair t :: map tok_pair cons1) ->
-    DGE mf g' (pos + 1) (off1 + lenN (ser cons1)) <> Fuel ->
     match sp_fields sf sg true (k_tag t :: seen) r' with
     | PViol => exists e, DGE mf g' (pos + 1) (off1 + lenN (ser cons1)) = Exc e
     | PRest seen' rest =>
@@ -428,12 +431,14 @@ Proof.
           elem_rel sg grp' seen' pos' /\ (consumed = [] -> seen' = seen) /\
           Permutation (mflat grp') (mflat grp ++ map tok_pair consumed)
     end).
-  { intros g' cons1 r' Er Hrel' Hperm Hnf'.
+  { intros g' cons1 r' Er Hrel' Hperm.
     subst r. destruct (toks_ok_app _ _ _ Hokr) as [_ Hokr'].
     pose proof (at_suffix _ _ _ _ _ _ Hat1) as Hat'.
     assert (Hsf' : (3 * length r' + 1 <= sf)%nat).
     { cbn [length] in Hsf. rewrite app_length in Hsf. lia. }
-    pose proof (IHE sg g' (pos + 1) (off1 + lenN (ser cons1)) r' tail (k_tag t :: seen) sf Hwf Hrel' Hokr' Hat' Hsf' Hnf') as HI.
+    assert (Hmf' : (3 * length r' + 1 <= mf)%nat).
+    { cbn [length] in Hmf. rewrite app_length in Hmf. lia. }
+    pose proof (IHE sg g' (pos + 1) (off1 + lenN (ser cons1)) r' tail (k_tag t :: seen) sf Hwf Hrel' Hokr' Hat' Hsf' Hmf') as HI.
     destruct (sp_fields sf sg true (k_tag t :: seen) r') as [|seen' rest]; [exact HI|].
     destruct HI as (grp' & pos' & cons2 & Er' & Hres & Hrel'' & _ & Hperm2).
     exists grp', pos', (t :: cons1 ++ cons2). split; [|split; [|split; [|split]]].
@@ -449,21 +454,20 @@ Proof.
   destruct (t_group tr') eqn:Hg; cbn [andb] in *.
   2:{ (* plain field *)
     specialize (Hcont g1 [] r eq_refl Hrel1). cbn [ser flat_map lenN map] in Hcont. rewrite N.add_0_r in Hcont.
-    apply Hcont; [|assumption]. unfold g1. apply mflat_add_tok. }
+    apply Hcont. unfold g1. apply mflat_add_tok. }
   (* count field *)
   destruct (Hgrp eq_refl) as (Hit & sg' & Hsub & Hwf').
-  assert (Hcnt : has_group_count (k_val t) = count_pos (k_val t)).
-  { rewrite <- (cstr_nonzero _ Hnz) at 1. apply count_agree. apply Hint.
+  assert (Hcnt : has_group_count_c c (k_tag t) (k_val t) = count_pos (k_val t)).
+  { rewrite (hgc_int _ _ _ _ Hbe Hit). rewrite <- (cstr_nonzero _ Hnz) at 1. apply count_agree. apply Hint.
     rewrite (ftype_find _ _ _ Hbe). assumption. }
   rewrite Hcnt in *.
   destruct (count_pos (k_val t)) eqn:Hcp.
   2:{ specialize (Hcont g1 [] r eq_refl Hrel1). cbn [ser flat_map lenN map] in Hcont. rewrite N.add_0_r in Hcont.
-      apply Hcont; [|assumption]. unfold g1. apply mflat_add_tok. }
+      apply Hcont. unfold g1. apply mflat_add_tok. }
   rewrite Hsub.
   assert (Hsub1 : find_sub (mb_subs g1) (k_tag t) = Some sg').
   { destruct Hrel1 as (_ & Hs1 & _). rewrite Hs1. assumption. }
-  assert (Hnf1 : DGG mf g1 (k_tag t) off1 <> Fuel).
-  { intros E. rewrite E in Hnf. apply Hnf. reflexivity. }
+  assert (Hnf1 : (3 * length r + 3 <= mf)%nat) by (cbn [length] in Hmf; lia).
   assert (Hsf1 : (3 * length r + 2 <= sf)%nat) by (cbn [length] in Hsf; lia).
   pose proof (IHD g1 (k_tag t) sg' off1 r tail sf Hsub1 Hwf' Hokr Hat1 Hsf1 Hnf1) as HD.
   destruct (sp_elems sf sg' r) as [r'|].
@@ -475,7 +479,6 @@ Proof.
   - eapply perm_trans; [exact Hperm|].
     eapply perm_trans; [apply Permutation_app_tail; unfold g1; apply mflat_add|].
     cbn [app]. apply Permutation_middle.
-  - assumption.
 Qed.
 
 Lemma elem_rel_init sg : wf_table c true sg = true -> elem_rel sg (create_group sg false) [] 0.
@@ -489,7 +492,7 @@ Proof. reflexivity. Qed.
 
 Lemma stepGL mf : stmtEL mf -> stmtGL mf -> stmtGL (S mf).
 Proof.
-  intros IHE IHG gm els off ts tail sf Hwf Hok Hat Hsf Hnf.
+  intros IHE IHG gm els off ts tail sf Hwf Hok Hat Hsf Hmf.
   destruct sf as [|sf]; [lia|].
   rewrite dg_loop_S in *. cbv zeta in *.
   destruct ts as [|t r].
@@ -500,8 +503,7 @@ Proof.
   destruct (tok_ok_facts _ _ Hokt) as (Htag & Hval & _ & _).
   destruct (at_cons _ _ _ _ _ _ Hat Htag Hval) as (Hlt & _ & _ & _).
   rewrite Hlt in *. cbn [sp_elems].
-  assert (Hnf0 : DGE mf (create_group gm false) 0 off <> Fuel).
-  { intros E. rewrite E in Hnf. apply Hnf. reflexivity. }
+  assert (Hnf0 : (3 * length (t :: r) + 1 <= mf)%nat) by lia.
   assert (Hsf0 : (3 * length (t :: r) + 1 <= sf)%nat) by lia.
   pose proof (IHE gm (create_group gm false) 0 off (t :: r) tail [] sf Hwf (elem_rel_init gm Hwf) Hok Hat Hsf0 Hnf0) as HE.
   destruct (sp_fields sf gm true [] (t :: r)) as [|seen' rest].
@@ -528,7 +530,7 @@ Proof.
   { rewrite Ets, app_length. destruct consumed; [congruence | cbn [length]; lia]. }
   rewrite Ets in Hok, Hat. destruct (toks_ok_app _ _ _ Hok) as [_ Hok'].
   pose proof (at_suffix _ _ _ _ _ _ Hat) as Hat'.
-  assert (Hnf' : DGL mf gm (els ++ [grp']) (off + lenN (ser consumed)) <> Fuel) by assumption.
+  assert (Hnf' : (3 * length (t' :: rest') + 2 <= mf)%nat) by lia.
   assert (Hsf' : (3 * length (t' :: rest') + 2 <= sf)%nat) by lia.
   pose proof (IHG gm (els ++ [grp']) (off + lenN (ser consumed)) (t' :: rest') tail sf Hwf Hok' Hat' Hsf' Hnf') as HG.
   destruct (sp_elems sf gm (t' :: rest')) as [rest2|]; [|exact HG].
@@ -543,14 +545,13 @@ Qed.
 
 Lemma stepDL mf : stmtGL mf -> stmtDL (S mf).
 Proof.
-  intros IHG m f sg off ts tail sf Hsub Hwf Hok Hat Hsf Hnf.
+  intros IHG m f sg off ts tail sf Hsub Hwf Hok Hat Hsf Hmfu.
   rewrite decode_group_S in *. unfold find_add_group in *. rewrite Hsub in *. cbv zeta in *.
   set (m1 := with_groups m (map_insert f [] (mb_groups m))) in *.
   destruct (map_find_insert f (@nil mbase) (mb_groups m)) as (els0 & Hmf).
   assert (Hg1 : mb_groups m1 = map_insert f [] (mb_groups m)) by (unfold m1; apply groups_wg).
   rewrite Hg1, Hmf in *.
-  assert (Hnf0 : DGL mf sg els0 off <> Fuel).
-  { intros E. rewrite E in Hnf. apply Hnf. reflexivity. }
+  assert (Hnf0 : (3 * length ts + 2 <= mf)%nat) by lia.
   pose proof (IHG sg els0 off ts tail sf Hwf Hok Hat Hsf Hnf0) as HG.
   destruct (sp_elems sf sg ts) as [rest|].
   2:{ destruct HG as (e & He). rewrite He. eauto. }
@@ -569,7 +570,7 @@ Lemma lockstep_groups : forall mf, stmtEL mf /\ stmtGL mf /\ stmtDL mf.
 Proof.
   induction mf as [|mf (IE & IG & ID)].
   - split; [|split]; unfold stmtEL, stmtGL, stmtDL; intros;
-      match goal with H : _ <> Fuel |- _ => exfalso; apply H; reflexivity end.
+      lia.
   - pose proof (stepEL mf IE ID). pose proof (stepGL mf IE IG). pose proof (stepDL mf IG). auto.
 Qed.
 End Lockstep.
@@ -633,11 +634,11 @@ Qed.
 Lemma part_lockstep : forall mf g m pos off ts tail seen sf lvp lvo tb,
   wf_table c false g = true -> part_rel g m seen -> toks_ok c ts = true -> no_auto g ts = true ->
   at_toks from fsize off ts tail -> (3 * length ts + 1 <= sf)%nat ->
-  DEC mf m off pos lvp lvo tb <> Fuel ->
+  (length ts + 1 <= mf)%nat -> (3 * length ts + 3 <= gfuel)%nat ->
   part_result g m off ts seen sf (DEC mf m off pos lvp lvo tb).
 Proof.
-  induction mf as [|mf IH]; intros g m pos off ts tail seen sf lvp lvo tb Hwf Hrel Hok Hna Hat Hsf Hnf;
-    [exfalso; apply Hnf; reflexivity|].
+  induction mf as [|mf IH]; intros g m pos off ts tail seen sf lvp lvo tb Hwf Hrel Hok Hna Hat Hsf Hmf Hgf;
+    [lia|].
   destruct sf as [|sf]; [lia|].
   unfold part_result. rewrite dec_loop_strict_S in *. cbv zeta in *.
   destruct ts as [|t r].
@@ -674,7 +675,6 @@ Proof.
   assert (Hcont : forall m' cons1 r',
     r = cons1 ++ r' -> part_rel g m' (k_tag t :: seen) ->
     Permutation (mflat m') (mflat m ++ tok_pair t :: map tok_pair cons1) ->
-    DEC mf m' (off1 + lenN (ser cons1)) pos1 lvp lvo (tagbuf_after (itoa_N (k_tag t)) tb) <> Fuel ->
     match sp_fields sf g false (k_tag t :: seen) r' with
     | PViol => exists e, DEC mf m' (off1 + lenN (ser cons1)) pos1 lvp lvo (tagbuf_after (itoa_N (k_tag t)) tb) = Exc e
     | PRest seen' rest =>
@@ -685,13 +685,17 @@ Proof.
             part_rel g m'' seen' /\ Permutation (mflat m'') (mflat m ++ map tok_pair consumed)
         else exists e, DEC mf m' (off1 + lenN (ser cons1)) pos1 lvp lvo (tagbuf_after (itoa_N (k_tag t)) tb) = Exc e
     end).
-  { intros m' cons1 r' Er Hrel' Hperm Hnf'.
+  { intros m' cons1 r' Er Hrel' Hperm.
     subst r. destruct (toks_ok_app _ _ _ Hokr) as [_ Hokr']. destruct (no_auto_app _ _ _ Hnar) as [_ Hnar'].
     pose proof (at_suffix _ _ _ _ _ _ Hat1) as Hat'.
     assert (Hsf' : (3 * length r' + 1 <= sf)%nat).
     { cbn [length] in Hsf. rewrite app_length in Hsf. lia. }
+    assert (Hmf' : (length r' + 1 <= mf)%nat).
+    { cbn [length] in Hmf. rewrite app_length in Hmf. lia. }
+    assert (Hgf' : (3 * length r' + 3 <= gfuel)%nat).
+    { cbn [length] in Hgf. rewrite app_length in Hgf. lia. }
     pose proof (IH g m' pos1 (off1 + lenN (ser cons1)) r' tail (k_tag t :: seen) sf lvp lvo
-                   (tagbuf_after (itoa_N (k_tag t)) tb) Hwf Hrel' Hokr' Hnar' Hat' Hsf' Hnf') as HI.
+                   (tagbuf_after (itoa_N (k_tag t)) tb) Hwf Hrel' Hokr' Hnar' Hat' Hsf' Hmf' Hgf') as HI.
     unfold part_result in HI.
     destruct (sp_fields sf g false (k_tag t :: seen) r') as [|seen' rest]; [exact HI|].
     destruct (mand_ok g seen'); [|exact HI].
@@ -707,20 +711,19 @@ Proof.
   rewrite (group_strip _ _ Hs) in *.
   destruct (t_group tr') eqn:Hg; cbn [andb] in *.
   2:{ specialize (Hcont m1 [] r eq_refl Hrel1). cbn [ser flat_map lenN map] in Hcont. rewrite N.add_0_r in Hcont.
-      apply Hcont; [|assumption]. unfold m1. apply mflat_add_tok. }
+      apply Hcont. unfold m1. apply mflat_add_tok. }
   destruct (Hgrp eq_refl) as (Hit & sg' & Hsub & Hwf').
-  assert (Hcnt : has_group_count (k_val t) = count_pos (k_val t)).
-  { rewrite <- (cstr_nonzero _ Hnz) at 1. apply count_agree. apply Hint.
+  assert (Hcnt : has_group_count_c c (k_tag t) (k_val t) = count_pos (k_val t)).
+  { rewrite (hgc_int _ _ _ _ Hbe Hit). rewrite <- (cstr_nonzero _ Hnz) at 1. apply count_agree. apply Hint.
     rewrite (ftype_find _ _ _ Hbe). assumption. }
   rewrite Hcnt in *.
   destruct (count_pos (k_val t)) eqn:Hcp.
   2:{ specialize (Hcont m1 [] r eq_refl Hrel1). cbn [ser flat_map lenN map] in Hcont. rewrite N.add_0_r in Hcont.
-      apply Hcont; [|assumption]. unfold m1. apply mflat_add_tok. }
+      apply Hcont. unfold m1. apply mflat_add_tok. }
   rewrite Hsub.
   assert (Hsub1 : find_sub (mb_subs m1) (k_tag t) = Some sg').
   { destruct Hrel1 as (_ & Hs1 & _). rewrite Hs1. assumption. }
-  assert (Hnf1 : decode_group c real_caps from fsize gfuel m1 (k_tag t) off1 <> Fuel).
-  { intros E. rewrite E in Hnf. apply Hnf. reflexivity. }
+  assert (Hnf1 : (3 * length r + 3 <= gfuel)%nat) by (cbn [length] in Hgf; lia).
   assert (Hsf1 : (3 * length r + 2 <= sf)%nat) by (cbn [length] in Hsf; lia).
   destruct (lockstep_groups c from fsize gfuel) as (_ & _ & HDL).
   pose proof (HDL m1 (k_tag t) sg' off1 r tail sf Hsub1 Hwf' Hokr Hat1 Hsf1 Hnf1) as HD.
@@ -733,7 +736,6 @@ Proof.
   - eapply perm_trans; [exact Hperm|].
     eapply perm_trans; [apply Permutation_app_tail; unfold m1; apply mflat_add|].
     cbn [app]. apply Permutation_middle.
-  - assumption.
 Qed.
 End Part.
 
@@ -977,13 +979,25 @@ Proof.
 Qed.
 
 (* ------------------------------------------------------------------ assembling Message::decode *)
+Lemma ser_len_ge ts : (3 * length ts <= length (ser ts))%nat.
+Proof.
+  induction ts as [|t r IH]; [cbn; lia|]. rewrite ser_cons, app_length. cbn [length].
+  pose proof (lenN_ser_tok_pos t) as H. rewrite lenN_len in H. lia.
+Qed.
+
+(* the fuel Message::decode's model hands out is never exhausted: two units per input byte *)
 Lemma part_decode c bytes g m seen ts tail off ignore sf :
   wf_table c false g = true -> part_rel g m seen -> toks_ok c ts = true -> no_auto g ts = true ->
   at_toks bytes ((lenN bytes + 4294967296 - ignore) mod 4294967296) off ts tail ->
-  (3 * length ts + 1 <= sf)%nat ->
-  mbase_decode c real_caps bytes m off ignore false <> Fuel ->
+  (3 * length ts + 1 <= sf)%nat -> (1 <= length bytes)%nat ->
   part_result g m off ts seen sf (mbase_decode c real_caps bytes m off ignore false).
-Proof. intros. unfold mbase_decode, mb_decode in *. eapply part_lockstep; eauto. Qed.
+Proof.
+  intros Hwf Hrel Hok Hna Hat Hsf Hb1. unfold mbase_decode, mb_decode in *.
+  assert (Hl : (length (ser ts) <= length bytes)%nat).
+  { destruct Hat as (pre & -> & _). rewrite !app_length. lia. }
+  pose proof (ser_len_ge ts) as Hge.
+  eapply part_lockstep; eauto; unfold dec_fuel; lia.
+Qed.
 
 Lemma part_of_result g ts (sf : nat) : sf = sp_fuel ts ->
   part g ts = match sp_fields sf g false [] ts with
@@ -1072,7 +1086,6 @@ Definition decode_result : res (message * N) :=
 Definition init_pairs : list (N * list N) := map snd (c_hdr_init c) ++ map snd (c_trl_init c).
 
 Lemma decode_parts :
-  decode_result <> Fuel ->
   match part (c_header c) toks with
   | PViol => exists e, decode_result = Exc e
   | PRest _ r1 =>
@@ -1089,7 +1102,6 @@ Lemma decode_parts :
     end
   end.
 Proof.
-  intros Hnf.
   destruct (wf_ctx_all c Hwf) as (Hwh & Hwt & Hih & Hit & Hfh & Hft & _ & Hng & Hwb).
   pose proof (Hwb md Hmd) as Hwbody.
   assert (Hwbt : wf_table c false (md_meta md) = true).
@@ -1128,7 +1140,8 @@ Proof.
   { exists (ser [t8; t9; t35]). rewrite Hfs0. split; [assumption|]. split; [reflexivity | assumption]. }
   unfold decode_result, msg_decode in *. cbn [mk_message m_hdr m_body m_trl m_type] in *.
   set (RH := mbase_decode c real_caps bytes (mk_part (c_header c) (c_hdr_init c) true) hlen 0 false) in *.
-  assert (HnfH : RH <> Fuel) by (intros E; rewrite E in Hnf; apply Hnf; reflexivity).
+  assert (HnfH : (1 <= length bytes)%nat).
+  { unfold bytes, toks. rewrite ser_cons, app_length. pose proof (lenN_ser_tok_pos t8) as H. rewrite lenN_len in H. lia. }
   assert (Hsfh : (3 * length r + 1 <= length toks + length toks + length toks)%nat).
   { unfold toks. cbn [length]. lia. }
   pose proof (part_decode c bytes _ _ _ r [] hlen 0 (length toks + length toks + length toks)
@@ -1144,7 +1157,7 @@ Proof.
   pose proof (at_suffix _ _ _ _ _ _ Hath) as Hatb.
   set (offb := hlen + lenN (ser cH)) in *.
   set (RB := mbase_decode c real_caps bytes (create_group (md_meta md) false) offb 0 false) in *.
-  assert (HnfB : RB <> Fuel) by (intros E; rewrite E in Hnf; apply Hnf; reflexivity).
+  pose proof HnfH as HnfB.
   assert (Hsfb : (3 * length r1 + 1 <= sp_fuel r1)%nat) by (unfold sp_fuel; lia).
   pose proof (part_decode c bytes _ _ _ r1 [] offb 0 (sp_fuel r1) Hwbt (body_part_rel c _ Hwbody) Hok1
                 (wf_body_no_auto c _ r1 Hwbody) Hatb Hsfb HnfB) as PB.
@@ -1161,7 +1174,7 @@ Proof.
   set (offt := offb + lenN (ser cB)) in *.
   set (m0t := mk_part (c_trailer c) (c_trl_init c) true) in *.
   set (RT := mbase_decode c real_caps bytes m0t offt 7 false) in *.
-  assert (HnfT : RT <> Fuel) by (intros E; rewrite E in Hnf; apply Hnf; reflexivity).
+  pose proof HnfH as HnfT.
   destruct (init_ok_plain _ _ 10 Hit ltac:(rewrite Hft; cbn; auto)) as (tr10 & Hf10 & Hg10 & Hm10).
   destruct (wf_table_unfold _ _ _ Hwt) as (Hndt & _ & _).
   assert (Hrelt : part_rel (c_trailer c) m0t [10]) by (apply (init_part_rel c _ _ _ Hwt Hit Hft)).
@@ -1346,14 +1359,13 @@ Proof. intros H. unfold struct_verdict. rewrite H. reflexivity. Qed.
 
 Lemma exact_accept_lemma c toks :
   wf_ctx c = true -> exact_hyps c toks = true -> struct_verdict c toks <> VIllegal ->
-  strict_factory c (ser toks) <> Fuel ->
   match strict_factory c (ser toks) with
   | Ok m => conforms c (ser toks) = true
   | Exc _ => conforms c (ser toks) = false
   | _ => False
   end.
 Proof.
-  intros Hwf Hhyp Hill Hnf.
+  intros Hwf Hhyp Hill.
   destruct (exact_hyps_facts _ _ Hhyp) as (Hfr & Hok & Hah & Hat & Hlens & Hlen).
   destruct (frame_split _ Hfr) as (t8 & t9 & t35 & mid & t10 & Etoks & E8 & E9 & E35 & E10 & L10 & Elast & Emid).
   destruct (Hlens _ _ _ _ Etoks) as (L9 & L35 & Hdig). rewrite Elast in Hdig. rewrite Emid in Hah, Hat.
@@ -1378,8 +1390,7 @@ Proof.
   2:{ cbn [is_conf]. apply andb_false_r. }
   pose proof (find_msg_In _ _ _ Hmd) as Hin.
   set (R := msg_decode c real_caps (ser toks) (mk_message c md false) hlen 7 false) in *.
-  assert (HnfR : R <> Fuel) by (intros E; rewrite E in Hnf; apply Hnf; reflexivity).
-  pose proof (decode_parts c Hwf t8 t9 t35 t10 mid md E8 E9 E35 E10 L10 Hok (conj Hah Hat) Hlen Hin HnfR) as HD.
+  pose proof (decode_parts c Hwf t8 t9 t35 t10 mid md E8 E9 E35 E10 L10 Hok (conj Hah Hat) Hlen Hin) as HD.
   fold toks in HD.
   destruct (part (c_header c) toks) as [|sH r1].
   { destruct HD as (e & He). unfold decode_result in He. fold toks hlen R in He. rewrite He. cbn [bind is_conf]. apply andb_false_r. }
